@@ -221,6 +221,9 @@ m('c16-r2-no-open-section', 'C16', 'C16-R2', 'into_current_strain_peaks', (
 m('c16-r3-strains-no-holdoff', 'C16', 'C16-R3', 'mania:strains', (
     'src/mania/strains.rs', "    if difficulty.get_mods().ho() {\n        convert::apply_hold_off_to_beatmap(map.to_mut());\n    }\n", ""))
 
+m('c16-r6-own-sectioning', 'C16', 'C16-R6', 'osu:Flashlight', (
+    'src/osu/difficulty/skills/flashlight.rs', "impl Flashlight {", "impl Flashlight {\n    #[allow(unused)]\n    const SECTION_LENGTH: i32 = 200;\n"), allow_miss=True)
+
 # ---- C17 ----------------------------------------------------------------------------------------------------
 m('c17-r1-second-hit-windows', 'C17', 'C17-R1', 'build', (
     'src/model/beatmap/attributes.rs', "        let hit_windows = self.hit_windows();\n        let HitWindows {",
